@@ -36,6 +36,7 @@ type Obligation struct {
 	Result     *SolverResult
 	Trivial    bool
 	relAlt     func() *Obligation // weaker alternative tried when the obligation is not discharged
+	replayFn func(o *Obligation) *ReplayResult // custom replay (relational obligations)
 	relAltFull bool
 }
 
